@@ -172,6 +172,7 @@ pub fn units(prop: &str, tier: Tier) -> Option<Vec<Unit>> {
             for kind in [KindId::Stream, KindId::Io, KindId::MappedGapped, KindId::U8] {
                 v.push(class(&format!("k01-{}", kind.name()), &k, pick(3, 4)).kind(kind).alarm(alarm).unit());
             }
+            v.push(e1("k01-by-reference-slice", format!("every K01 grammar with <= {} nodes that reads a token through any / select, rewritten to any_ref / select_ref", pick(3, 4)), en::by_ref_all(&k.upto(pick(3, 4)))).kind(KindId::Slice).alarm(alarm).unit());
             if !q {
                 v.push(class("kcore-deep", &en::k_core(), 6).alarm(alarm).unit());
             }
@@ -221,6 +222,10 @@ pub fn units(prop: &str, tier: Tier) -> Option<Vec<Unit>> {
                 class("kext-contract-emptyerr", &en::k_ext(), pick(3, 4)).cfg(CfgId::Empty).probes(NOPROBE).alarm(alarm).lazy().unit(),
                 class("k01-contract-cheap", &en::k01(), pick(3, 3)).cfg(CfgId::Cheap).probes(NOPROBE).alarm(alarm).lazy().unit(),
                 class("kext-contract-through-clone", &en::k_ext(), 3).alarm(alarm).lazy().clone_mode().unit(),
+                // "every token was consumed" must not depend on how the input announces its length
+                class("kext-contract-stream", &en::k_ext(), 3).kind(KindId::Stream).alarm(alarm).lazy().unit(),
+                class("kext-contract-boxed-stream-no-size-hint", &en::k_ext(), 3).kind(KindId::BoxedStream).alarm(alarm).lazy().unit(),
+                class("kext-contract-ioinput", &en::k_ext(), 3).kind(KindId::Io).alarm(alarm).lazy().unit(),
                 e1("k02-contract", "repeated()/separated_by() templates".into(), {
                     let mut v = en::k02_rep(false);
                     v.extend(en::k02_sep(false));
@@ -337,6 +342,11 @@ pub fn units(prop: &str, tier: Tier) -> Option<Vec<Unit>> {
                 class("k07-str-through-clone", &en::k07(true), 3).alarm(alarm).clone_mode().unit(),
                 class("k07-stream", &en::k07(false), pick(3, 3)).kind(KindId::Stream).alarm(alarm).unit(),
                 class("k07-mapped-gapped", &en::k07(false), pick(3, 4)).kind(KindId::MappedGapped).alarm(alarm).unit(),
+                // tokens read by reference (any_ref / select_ref): the cursor of a mapped input records the end of
+                // the last token separately for the by-value and the by-reference readers
+                e1("k07-by-reference-mapped-gapped", "K07 grammars reading a token through any / select, rewritten to any_ref / select_ref".into(), en::by_ref_all(&en::k07(false).upto(pick(3, 4)))).kind(KindId::MappedGapped).alarm(alarm).unit(),
+                e1("k07-by-reference-mapped", "K07 grammars reading a token through any / select, rewritten to any_ref / select_ref".into(), en::by_ref_all(&en::k07(false).upto(3))).kind(KindId::Mapped).alarm(alarm).unit(),
+                e1("k07-by-reference-slice", "K07 grammars reading a token through any / select, rewritten to any_ref / select_ref".into(), en::by_ref_all(&en::k07(true).upto(3))).kind(KindId::Slice).alarm(alarm).unit(),
                 e1("k02-spans", "repeated()/separated_by() templates (fold callbacks with spans, rest slices)".into(), {
                     let mut v = en::k02_rep(false);
                     v.extend(en::k02_sep(false));
@@ -393,10 +403,15 @@ pub fn units(prop: &str, tier: Tier) -> Option<Vec<Unit>> {
             for kind in [KindId::Stream, KindId::Mapped, KindId::Io, KindId::WithContext] {
                 v.push(class(&format!("k01-{}-through-clone", kind.name()), &k, 3).kind(kind).alarm(alarm).clone_mode().unit());
             }
+            for kind in [KindId::Slice, KindId::Mapped, KindId::MappedGapped, KindId::U8] {
+                v.push(e1(&format!("k01-by-reference-{}", kind.name()), "K01 grammars (<= 3 nodes) reading a token through any / select, rewritten to any_ref / select_ref".into(), en::by_ref_all(&k.upto(3))).kind(kind).alarm(alarm).unit());
+                v.push(e1(&format!("kext-by-reference-{}", kind.name()), "extended-class grammars (<= 3 nodes) reading a token through any / select, rewritten to any_ref / select_ref".into(), en::by_ref_all(&ke.upto(3))).kind(kind).alarm(alarm).unit());
+            }
             // &[T; N]: all inputs of length exactly N
             let arr_inputs: Vec<Vec<Tok>> = en::inputs(&ABC, 3).into_iter().filter(|t| t.len() == 3).collect();
             v.push(class("k01-&[char; 3]", &k, 3).kind(KindId::Array3).inputs(arr_inputs.clone()).alarm(alarm).unit());
-            v.push(class("kext-&[char; 3]", &ke, 3).kind(KindId::Array3).inputs(arr_inputs).alarm(alarm).unit());
+            v.push(class("kext-&[char; 3]", &ke, 3).kind(KindId::Array3).inputs(arr_inputs.clone()).alarm(alarm).unit());
+            v.push(e1("k01-by-reference-&[char; 3]", "K01 grammars (<= 3 nodes) rewritten to any_ref / select_ref".into(), en::by_ref_all(&k.upto(3))).kind(KindId::Array3).inputs(arr_inputs).alarm(alarm).unit());
             // Stream: inputs longer than the 512-token batch, grammars that backtrack over the whole input
             let a_star = |s: Sink| Rep(b(Just('a')), Bounds::STAR, s);
             let long_gs = vec![
@@ -597,6 +612,7 @@ pub fn units(prop: &str, tier: Tier) -> Option<Vec<Unit>> {
                 class("kstate-str", &en::k_state(), pick(3, 4)).cfg(CfgId::RichSt).probes(STATE).alarm(alarm).unit(),
                 class("kstate-str-through-clone", &en::k_state(), 3).cfg(CfgId::RichSt).probes(STATE).alarm(alarm).clone_mode().unit(),
                 class("kstate-slice", &en::k_state(), pick(3, 3)).kind(KindId::Slice).cfg(CfgId::RichSt).probes(STATE).alarm(alarm).unit(),
+                e1("kstate-by-reference-slice", "state-class grammars (<= 3 nodes) reading a token through any / select, rewritten to any_ref / select_ref (tokens handed out by reference reach the inspector too)".into(), en::by_ref_all(&en::k_state().upto(3))).kind(KindId::Slice).cfg(CfgId::RichSt).probes(STATE).alarm(alarm).unit(),
                 class("kstate-stream", &en::k_state(), pick(3, 3)).kind(KindId::Stream).cfg(CfgId::RichSt).probes(STATE).alarm(alarm).unit(),
                 // every InputRef operation (next / peek / skip / save / rewind / parse / check) with an inspector snapshot after each step
                 Unit::Custom { name: "cursor-machine".into(), run: Box::new(move |cx| eng_inputs::run("cursor-machine", tier, cx)) },
